@@ -141,3 +141,18 @@ Proof.
   intros E. unfold reads_in_flight, read_waiters. destruct c; break_step E; simpl; repeat split; auto;
     rewrite ?Heqb, ?Heqn; simpl; lia.
 Qed.
+
+(* disabling / enabling a port does not touch its write path: what was accepted before is still queued, in flight or
+   resolved exactly as it was (so, by the order theorem, it is still written in order) *)
+Theorem disable_keeps_write_path cap s e s' :
+  e = Disable \/ e = Enable -> step cap s e = Some s' ->
+  write_q s' = write_q s /\ wl s' = wl s /\ results s' = results s /\ next s' = next s /\ delivered s' = delivered s
+  /\ reading s' = reading s /\ direct s' = direct s.
+Proof. intros [-> | ->] E; break_step E; simpl; repeat split; reflexivity. Qed.
+
+(* no accepted trace removes a queued entry by any way other than the write loop or the overflow rule *)
+Theorem no_discard cap tr s : run cap init tr = Some s -> forall t, ~ In (Discard t) tr.
+Proof.
+  intros H t Hin. apply in_split in Hin. destruct Hin as (pre & post & ->).
+  apply run_split in H. destruct H as (s1 & s2 & _ & H2 & _). discriminate H2.
+Qed.
